@@ -76,6 +76,12 @@ AliveGood(h, ss) == {b \in DOMAIN conn : conn[b].h = h /\ conn[b].sess = ss /\ c
 \* a host is shaky (for a session) when not every pool slot is known to hold a usable connection
 Shaky(h, ss) == Cardinality(AliveGood(h, ss)) < NumConns
 Outstanding(b) == {x \in out : x.b = b}
+\* A send-failure hook is logged after the proxy looked for a connection, not atomically with it: the look happened at
+\* some moment since the previous logged event of the request.  q.shaky collects the hosts that were shaky at that
+\* event or have become shaky since.
+HostsOf(ss) == {conn[b].h : b \in {x \in DOMAIN conn : conn[x].sess = ss}}
+ShakyNow(ss) == {h \in HostsOf(ss) : Shaky(h, ss)}
+WasShaky(q, h) == Shaky(h, q.sess) \/ h \in q.shaky \/ h \notin HostsOf(q.sess)
 
 NewReq(c, s, idem, op, cached, tok, ss) ==
     [c |-> c, s |-> s, idem |-> idem, op |-> op, cached |-> cached, tok |-> tok, sess |-> ss,
@@ -84,6 +90,7 @@ NewReq(c, s, idem, op, cached, tok, ss) ==
      retry |-> 0,
      rlo |-> 0,                \* lower bound of the retry count: below `retry` only when a counted answer may have
      prlo |-> 0,               \* been lost with its connection before the proxy read it (maylost; prlo is the lower
+     shaky |-> {},             \* hosts that were shaky at some moment since the request's previous logged event
      maylost |-> FALSE,        \* bound before that answer, which is the effective one while maylost)
      tried |-> <<>>,           \* hosts consumed from the query plan, in order
      cur |-> NONE,             \* host of the current attempt
@@ -104,7 +111,7 @@ NewReq(c, s, idem, op, cached, tok, ss) ==
 -----------------------------------------------------------------------------
 (* Environment: client submits a request.                                          *)
 DoSubmit(r, c, s, idem, op, cached, tok, ss) ==
-    /\ rq' = (r :> NewReq(c, s, idem, op, cached, tok, ss)) @@ rq
+    /\ rq' = (r :> [NewReq(c, s, idem, op, cached, tok, ss) EXCEPT !.shaky = ShakyNow(ss)]) @@ rq
     /\ bad' = Flag(r \notin DOMAIN rq, "HARNESS", "request id reused", r)
     /\ UNCHANGED <<conn, out>>
 
@@ -155,6 +162,7 @@ DoTake(r, h, b, bs, op) ==
                           !.must = IF q.fork THEN q.must \ {"next", "same", "prep"} ELSE {},
                           !.cur = IF isprep THEN q.cur ELSE h,
                           !.ab = b,
+                          !.shaky = ShakyNow(q.sess),
                           !.mode = IF isprep THEN "prep" ELSE "req",
                           !.ans = NONE,
                           \* a retry on the same host shows that the answer was read, not lost
@@ -202,7 +210,7 @@ DoAnswer(r, b, bs, o) ==
     /\ out' = out \ {x}
     /\ rq' = [rq EXCEPT ![r] =
                 IF current THEN
-                    [q EXCEPT !.ph = "exec", !.must = IF q.fork THEN q.must \cup newmust \cup {"reply_" \o ReplyKind(o)} ELSE newmust,
+                    [q EXCEPT !.shaky = ShakyNow(q.sess), !.ph = "exec", !.must = IF q.fork THEN q.must \cup newmust \cup {"reply_" \o ReplyKind(o)} ELSE newmust,
                               !.retry = newretry, !.rlo = newrlo, !.prlo = lo, !.maylost = FALSE, !.ans = o,
                               !.unsafe = IF x.op = "req" THEN (q.unsafe \/ o \notin SafeToResend) ELSE q.unsafe,
                               !.attlog = IF x.op = "req" THEN Append(q.attlog, <<q.cur, o>>) ELSE q.attlog]
@@ -218,11 +226,14 @@ DoAnswer(r, b, bs, o) ==
 OnCloseMoves(q) == IF q.idem THEN {"next"} ELSE {"reply_connclosed"}
 
 DoDrop(b) ==
-    LET lost == Outstanding(b) IN
-    /\ conn' = IF b \in DOMAIN conn THEN [conn EXCEPT ![b].alive = FALSE] ELSE conn
+    LET lost == Outstanding(b)
+        known == b \in DOMAIN conn
+    IN
+    /\ conn' = IF known THEN [conn EXCEPT ![b].alive = FALSE] ELSE conn
     /\ out' = out \ lost
     /\ rq' = [r \in DOMAIN rq |->
-                LET q == rq[r] IN
+                \* the host of the dropped connection is shaky from now on: every request of its session may meet that
+                LET q == IF known /\ rq[r].sess = conn[b].sess THEN [rq[r] EXCEPT !.shaky = @ \cup {conn[b].h}] ELSE rq[r] IN
                 IF q.ph = "wait" /\ q.ab = b /\ (\E x \in lost : x.r = r)
                 THEN [q EXCEPT !.ph = "exec",
                                !.must = IF q.fork THEN (q.must \ {"next", "same", "prep"}) \cup OnCloseMoves(q) ELSE OnCloseMoves(q),
@@ -247,7 +258,7 @@ DoSendFail(r, h, why) ==
     \* stream exhaustion: the harness only sees attempts the backend has already taken, requests still on the wire
     \* and the proxy's own heartbeats also hold stream ids, so half the limit is accepted as evidence
     LET justified == IF why = "streams" THEN \E b \in DOMAIN conn : conn[b].h = h /\ 2 * Cardinality(Outstanding(b)) >= StreamLimit
-                     ELSE Shaky(h, q.sess)
+                     ELSE WasShaky(q, h)
         asNext == q.ph = "exec" /\ TakeIsNext(q, h)
         asSame == q.ph = "exec" /\ TakeIsSame(q, h) /\ ~asNext
         asPrep == q.ph = "exec" /\ "prep" \in q.must /\ h = q.cur
@@ -259,6 +270,7 @@ DoSendFail(r, h, why) ==
     IN
     /\ rq' = [rq EXCEPT ![r] =
                 [q EXCEPT !.tried = IF asNext \/ asGhost THEN Append(q.tried, h) ELSE q.tried,
+                          !.shaky = ShakyNow(q.sess),
                           !.stale = (IF asGhost THEN q.stale - 1 ELSE q.stale) + (IF why = "write" THEN 1 ELSE 0),
                           !.fork = q.fork \/ why = "write",
                           !.ans = IF asNext \/ asSame \/ asPrep THEN NONE ELSE q.ans,
@@ -282,10 +294,10 @@ DoOnClose(r, h) ==
         asSame == q.ph = "exec" /\ ~asNext /\ (TakeIsSame(q, h) \/ ("prep" \in q.must /\ h = q.cur))
     IN
     /\ rq' = [rq EXCEPT ![r] =
-                IF asNext THEN [q EXCEPT !.tried = Append(q.tried, h), !.cur = h, !.must = OnCloseMoves(q), !.ans = NONE]
-                ELSE IF asSame THEN [q EXCEPT !.must = OnCloseMoves(q), !.ans = NONE]
+                IF asNext THEN [q EXCEPT !.tried = Append(q.tried, h), !.cur = h, !.must = OnCloseMoves(q), !.ans = NONE, !.shaky = ShakyNow(q.sess)]
+                ELSE IF asSame THEN [q EXCEPT !.must = OnCloseMoves(q), !.ans = NONE, !.shaky = ShakyNow(q.sess)]
                 ELSE q]
-    /\ bad' = Flag(~(asNext \/ asSame) \/ Shaky(h, q.sess) \/ q.fork, "C05", "request notified of a closed connection on a host whose connections are all up", r)
+    /\ bad' = Flag(~(asNext \/ asSame) \/ WasShaky(q, h) \/ q.fork, "C05", "request notified of a closed connection on a host whose connections are all up", r)
     /\ UNCHANGED <<conn, out>>
 
 (* Proxy move: the client receives a frame on (c, s).  r is the request the frame  *)
